@@ -24,7 +24,7 @@ var (
 	c02Names  = []string{"/web", "/web-1", "/web-10", "/db", "/db.primary", "", "/w", "/cache_1", "/Web"}
 	c02Images = []string{"nginx", "nginx:1.25", "postgres", "redis", "ngin"}
 	c02States = []string{"running", "exited", "paused"}
-	c02Keys   = []string{"env", "com.docker.compose.service", "app-name", "a/b", "tier", "org.label-schema.name", "Env", "x y"}
+	c02Keys   = []string{"env", "com.docker.compose.service", "app-name", "a/b", "tier", "org.label-schema.name", "Env", "x y", "größe", "t٣"}
 	c02Vals   = []string{"prod", "production", "pro", "", "dev", "a.b", "a|b", "x y", "(1)", "PROD"}
 )
 
@@ -377,6 +377,83 @@ func runC02(r *vk.Run) {
 	})
 	// several different selectors through one Querier: both sides of a binary operation, then a second
 	// query on the same engine
+	// Equivalent spellings of one regular expression must select the same containers, whatever the
+	// values look like (line breaks, NUL, invalid UTF-8 included). No reading of "." vs newline is
+	// assumed here: only that P, (?:P), P|P and (P) denote the same language.
+	r.Phase("respell", r.N(3000, 600000), func(c *vk.Case) {
+		rng := c.Rng
+		inv := genInventory(rng, 10)
+		hostile := []string{"prod\nnightly", "p\n", "\n", "pro\x00d", "web\r\n1", "a\nb", "prod\xff", "dev\nprod"}
+		for i := range inv {
+			for _, k := range c02Keys {
+				if rng.Chance(1, 4) {
+					inv[i].Labels[k] = vk.Pick(rng, hostile)
+				}
+			}
+		}
+		ms := genSelector(rng, inv)
+		// keep one regex matcher, over a label likely to be present
+		var m selMatcher
+		found := false
+		for _, x := range ms {
+			if x.Op == logql.OpRe || x.Op == logql.OpNotRe {
+				m, found = x, true
+				break
+			}
+		}
+		if !found {
+			_, sk := modelSanitise(vk.Pick(rng, c02Keys))
+			m = selMatcher{Label: sk, Op: vk.Pick(rng, []logql.BinOp{logql.OpRe, logql.OpNotRe}), Value: vk.Pick(rng, []string{"p.*", "pro.*", ".*d", "prod.+", "a.b", ".*", ".+", "[a-z]+.*", "web.*"})}
+			m.OpS = opText(m.Op)
+		}
+		if rng.Bool() {
+			_, sk := modelSanitise(vk.Pick(rng, c02Keys))
+			m.Label = sk
+		}
+		for _, cs := range inv {
+			if _, ok := expectedContainerLabels(cs); !ok {
+				c.Count("excluded_collision", 1)
+				return
+			}
+		}
+		spell := []string{m.Value, "(?:" + m.Value + ")", m.Value + "|" + m.Value, "(" + m.Value + ")", "(?:" + m.Value + "){1}"}
+		var first []string
+		for i, sp := range spell {
+			mm := m
+			mm.Value = sp
+			query := renderSelector([]selMatcher{mm})
+			fd := newFakeDocker(inv)
+			_, err := evalQuery(dockerQuerier(fd), query, EvalP{Start: 1700000000e9, End: 1700000300e9, Step: time.Second, Limit: -1})
+			c.Eval(1)
+			detail := map[string]any{"inventory": inv, "query": query, "spellings": spell}
+			if err != nil {
+				if i == 0 {
+					c.Count("respell_base_rejected", 1)
+					return
+				}
+				detail["error"] = err.Error()
+				c.Fail("", fmt.Sprintf("query %s failed (%v) although %s is accepted", query, err, spell[0]), detail)
+				return
+			}
+			got := fd.OpenedIDs()
+			if i == 0 {
+				first = got
+				continue
+			}
+			if fmt.Sprint(got) != fmt.Sprint(first) {
+				detail["opened_first"], detail["opened_this"] = first, got
+				c.Fail("", fmt.Sprintf("equivalent regex spellings select different containers: %s%s%q opened %v, %q opened %v", m.Label, m.OpS, spell[0], first, sp, got), detail)
+				return
+			}
+		}
+		c.Count("respell_groups", 1)
+		if len(first) > 0 && len(first) < len(inv) {
+			c.Count("respell_partial", 1)
+			c.Nontrivial("respell:" + m.Label + m.OpS + m.Value + fmt.Sprint(c.Idx))
+		}
+	})
+	r.Require("respell_partial", 200)
+
 	r.Phase("multisel", r.N(4000, 300000), func(c *vk.Case) {
 		rng := c.Rng
 		inv := genInventory(rng, 8)
